@@ -223,6 +223,25 @@ def r56(e: Engine, rep: Report):
                   loc=lp.loc(), reason='one call per match')
     c = e.p.cls(READER)
     nw = 0
+    # a private helper that is called by owner methods only is an owner too
+    callers = {}
+    for mname, m in c.methods.items():
+        for x in walk_own(m.node):
+            if isinstance(x, ast.Attribute) and isinstance(
+                    x.value, ast.Name) and x.value.id == 'self' and \
+                    x.attr in c.methods:
+                callers.setdefault(x.attr, set()).add(mname)
+    owners = {a: set(v) for a, v in STATE_OWNERS.items()}
+    for a in owners:
+        changed = True
+        while changed:
+            changed = False
+            for mname in c.methods:
+                if mname not in owners[a] and mname.startswith('_') and \
+                        callers.get(mname) and \
+                        callers[mname] <= owners[a]:
+                    owners[a].add(mname)
+                    changed = True
     for mname, m in sorted(c.methods.items()):
         for n in walk_own(m.node):
             tg = []
@@ -244,7 +263,7 @@ def r56(e: Engine, rep: Report):
                             x.value.id == 'self' and x.attr in STATE_OWNERS:
                         nw += 1
                         rep.evaluations += 1
-                        rep.check(mname in STATE_OWNERS[x.attr], 'R5.6',
+                        rep.check(mname in owners[x.attr], 'R5.6',
                                   m.qname, 'write of self.%s' % x.attr,
                                   'DataReader.%s is changed in %s, outside '
                                   'the methods that keep cursor, line table '
